@@ -198,7 +198,10 @@ def rows_written(run):
             try:
                 out = impl.config_tabulate(tsec + body)
             except Exception as e:
-                run.fail("rows-written", "target %s dr %s cutoff %s: %s %s" % (target, s, cs, type(e).__name__, str(e)[:200]), dict(potable_file=tsec + body))
+                from atsim.potentials.config._common import ConfigurationException
+                if target == "DL_POLY" and want == 4 and isinstance(e, ConfigurationException):
+                    continue        # a DL_POLY TABLE of four rows cannot exist (its increment is cutoff/(rows-4)): refused as a configuration error (C16)
+                run.fail("dlpoly-four-rows" if (target == "DL_POLY" and want == 4) else "rows-written", "target %s dr %s cutoff %s: %s %s" % (target, s, cs, type(e).__name__, str(e)[:200]), dict(potable_file=tsec + body))
                 continue
             run.case(key=("rows", target, s, k), kind="rows/" + target)
             run.traces += 1
